@@ -188,7 +188,7 @@ def remove_entity(s, name):
         if ty.body[0] == "select":
             ty.body = ("select", [m for m in ty.body[1] if m != name])
     t.types = [ty for ty in t.types if not (ty.body[0] == "select" and not ty.body[1])]
-    return t
+    return drop_dangling_renames(t)
 
 
 def remove_type(s, name):
@@ -196,13 +196,31 @@ def remove_type(s, name):
     if any(a.typ == name for e in t.entities for a in e.attrs):
         for e in t.entities:
             e.attrs = [a for a in e.attrs if a.typ != name]
+    for e in t.entities:
+        e.attrs = [a for a in e.attrs if not (isinstance(a.typ, str) and a.typ.endswith(" OF " + name))]
     t.types = [ty for ty in t.types if ty.name != name and not (ty.body[0] == "defined" and ty.body[1] == name)
                and not (ty.body[0] == "aggregate" and ty.body[4] == name)]
     for ty in t.types:
         if ty.body[0] == "select":
             ty.body = ("select", [m for m in ty.body[1] if m != name])
     t.types = [ty for ty in t.types if not (ty.body[0] == "select" and not ty.body[1])]
-    return t
+    return drop_dangling_renames(t)
+
+
+def drop_dangling_renames(t):
+    """renames (and what uses them) whose original is gone"""
+    while True:
+        names = {ty.name for ty in t.types}
+        gone = [ty.name for ty in t.types if ty.body[0] in ("renum", "rselect") and ty.body[1] not in names]
+        if not gone:
+            return t
+        t.types = [ty for ty in t.types if ty.name not in gone]
+        for e in t.entities:
+            e.attrs = [a for a in e.attrs if a.typ not in gone and not (isinstance(a.typ, str) and any(a.typ.endswith(" OF " + g) for g in gone))]
+        for ty in t.types:
+            if ty.body[0] == "select":
+                ty.body = ("select", [m for m in ty.body[1] if m not in gone])
+        t.types = [ty for ty in t.types if not (ty.body[0] == "select" and not ty.body[1])]
 
 
 def rename(s, old, new):
@@ -301,21 +319,29 @@ def chain_len(s, name):
     return max([1 + chain_len(s, p) for p in ents[name].supers if p in ents] + [0])
 
 
+def expected_bases(s, name):
+    """the base order the property can ask for: declaration order; only where Python forbids it (a listed supertype that is
+    an ancestor of another listed supertype) the ancestor comes behind that subtype.  A pure function of the schema."""
+    return python_order(s, _ents(s)[name].supers)
+
+
 def c3_linearisable(s):
-    """does every entity's declared supertype order admit Python's C3 linearisation?"""
+    """do the expected base orders (see expected_bases) admit Python's C3 linearisation?  A pure function of the schema:
+    when it holds, an import failure is a defect of the generator, whatever its message."""
     ents, memo = _ents(s), {}
 
     def lin(n):
         if n in memo:
             return memo[n]
         seqs = []
-        for p in ents[n].supers:
+        bases = expected_bases(s, n)
+        for p in bases:
             lp = lin(p)
             if lp is None:
                 memo[n] = None
                 return None
             seqs.append(list(lp))
-        seqs.append(list(ents[n].supers))
+        seqs.append(list(bases))
         out = [n]
         while any(seqs):
             seqs = [q for q in seqs if q]
@@ -365,7 +391,7 @@ def classify(o, s):
             return "ctor-order:shared-ancestor-twice"
     if kind == "bases-order" and extra:
         want, got = extra["want"], extra["got"]
-        if sorted(got) == sorted(want) and got == python_order(s, want):
+        if got != want and got == expected_bases(s, extra["entity"]):
             # declaration order with an ancestor moved behind its listed subtype: the declared order itself is one Python refuses
             return "bases-order:ancestor-before-descendant"
         # the stable sort by decreasing supertype-chain length
@@ -427,6 +453,8 @@ def batches(ctx):
     yield "random-keyword-heavy", [G.gen(ctx.rng, idx=10000 + i, p_kw=0.6, admissible=True) for i in range(40 if quick else 400)]
     yield "random-deep-multi", [G.gen(ctx.rng, idx=20000 + i, n_ent=ctx.rng.randrange(4, 10), p_multi=0.7, p_kw=0.05, admissible=True)
                                 for i in range(60 if quick else 600)]
+    yield "renamed-enum-in-select", [G.gen_renamed_in_select(ctx.rng, i) for i in range(60 if quick else 600)]
+    yield "ancestor-through-multiple-supertypes", [G.gen_lattice(ctx.rng, i) for i in range(60 if quick else 600)]
     yield "random-any-supertype-order", [G.gen(ctx.rng, idx=30000 + i, n_ent=ctx.rng.randrange(3, 9), p_multi=0.6, p_kw=0.05)
                                          for i in range(40 if quick else 400)]
 
